@@ -711,7 +711,7 @@ MANIFEST = dict(
          "sum, each evaluated twice on the same objects, plus the sequence a+b, a-b, b+a, a+b on one pair, and element-wise "
          "on array-valued levels (ndarray and list); every scalar "
          "forward conversion again with an absolute and a relative uncertainty attached; array conversions asked twice. "
-         "22 900 cases per quick run, about 6e4 in the thorough tier, every one executed.",
+         "22 996 cases per quick run, about 6e4 in the thorough tier, every one executed.",
     note="Numerical agreement to 1e-9 relative (identity 1e-12), not bit-exact; magnitudes are a finite alphabet of "
          "representatives, other magnitudes rely on the formulas being value-independent; prefix `da`, undocumented "
          "level pairs and compound expressions beyond X/Hz are outside the alphabet; oracle formulas are hand-written "
